@@ -793,3 +793,57 @@ Proof.
     rewrite Hcall. xstep. subst ra. exact Hafter.
   - change 3 with (Z.of_N K). rewrite Hcall. xstep. subst ra. exact Hafter.
 Qed.
+
+(* ------------------------------------------------------------------ lbuf_wordend *)
+Definition we_loop : stmt := match fn_body cf_lbuf_wordend with SSeq _ (SSeq _ (SSeq _ (SSeq w _))) => w | _ => SSkip end.
+Definition we_tail : stmt := match fn_body cf_lbuf_wordend with SSeq _ (SSeq _ (SSeq _ (SSeq _ r))) => r | _ => SSkip end.
+
+Lemma we_loop_ok F d lb bln lbs lines br bo bigz dir : lines_small lines -> lines_nl_ok lines -> (maxlen lines < F)%nat -> dir_ok dir ->
+  forall mf m r o nl fuel early s r' o', mot_mem m lb bln lbs lines br bo -> cell_at m br r -> cell_at m bo o -> pos_ok r o ->
+  (mf < fuel)%nat -> 0 <= nl <= 1 ->
+  wordend_loop mf (map chop lines) dir nl r o = Some (early, (s, r', o')) ->
+  pos_ok r' o' /\
+  exists nl',
+  exec (callf cprog F (S (S (S (S (S d)))))) fuel we_loop
+       (mkst [VPtr lb 0; VInt bigz; VInt dir; VPtr br 0; VPtr bo 0; VInt nl] m)
+  = (if early then OReturn (st_val1 s) else ONormal)
+      (mkst [VPtr lb 0; VInt bigz; VInt dir; VPtr br 0; VPtr bo 0; VInt nl'] (set_pos m br bo r' o')).
+Proof.
+  intros Hsm Hok HF Hd. set (b := map chop lines).
+  induction mf as [|mf IH]; intros m r o nl fuel early s r' o' MM Hr Ho Hp Hf Hnl Hres; [discriminate|].
+  destruct fuel as [|fuel]; [lia|].
+  pose proof MM as [R Hl Hne Nr No Lr Lo]. pose proof Hp as [Pr Po].
+  cbn [wordend_loop] in Hres. fold b in Hres.
+  unfold we_loop; cbn [fn_body cf_lbuf_wordend]. rewrite exec_while. xstep.
+  rd_chr R Hsm HF Hr Ho Pr Po (S d).
+  rewrite (isspace_at m lb bln lbs lines r o (S (S (S (S d)))) F R Hl). xstep. fold b.
+  destruct (uc_isspace (lchr b r o)); xstep.
+  2:{ injection Hres as <- <- <- <-. split; [exact Hp|]. rewrite (set_pos_self m br bo r o Hr Ho). eexists; reflexivity. }
+  rewrite (next_call m lb bln lbs lines br bo r o dir (S d) F MM Hsm HF Hr Ho Hp Hd).
+  fold b. destruct (lbuf_next b dir r o) as [[s1 r1] o1] eqn:En. xstep.
+  pose proof (lbuf_next_pos_ok lines dir r o _ _ _ Hsm (la_nonul _ _ _ _ _ R) Hd Hp En) as Hp1.
+  destruct s1; unfold st_val; [change (truth (VInt (-1))) with (@Ok bool true)|change (truth (VInt 0)) with (@Ok bool false)]; xstep.
+  { injection Hres as <- <- <- <-. split; [exact Hp1|]. eexists; reflexivity. }
+  destruct (mot_mem_set_pos m lb bln lbs lines br bo r1 o1 MM) as (MM1 & Hr1 & Ho1).
+  pose proof MM1 as [R1 Hl1 _ _ _ Lr1 Lo1]. pose proof Hp1 as [Pr1 Po1].
+  set (m1 := set_pos m br bo r1 o1) in *.
+  rd_chr R1 Hsm HF Hr1 Ho1 Pr1 Po1 (S d).
+  destruct (isnl_at m1 lb bln lbs lines r1 o1 (S (S (S (S d)))) F R1 Hl1 Hok) as (c & Hc & Hcn). rewrite Hc. xstep. fold b in Hcn. rewrite Hcn.
+  change (if is_nl (lchr b r1 o1) then 1 else 0) with (b2z (is_nl (lchr b r1 o1))) in Hres.
+  set (nl2 := nl + b2z (is_nl (lchr b r1 o1))) in *.
+  assert (Hnl2 : 0 <= nl2 <= 2) by (unfold nl2; destruct (is_nl (lchr b r1 o1)); cbn [b2z]; lia).
+  rewrite chk_I32 by lia. xstep.
+  destruct (Z.eqb_spec nl2 2) as [E2|E2]; xstep.
+  - destruct (Z.ltb_spec dir 0) as [Ld|Ld]; xstep.
+    + assert (Hnd : chk I32 (- dir) = Ok (- dir)) by (apply chk_I32; destruct Hd as [-> | ->]; lia). rewrite Hnd. xstep.
+      rewrite (next_call m1 lb bln lbs lines br bo r1 o1 (- dir) (S d) F MM1 Hsm HF Hr1 Ho1 Hp1)
+        by (destruct Hd as [-> | ->]; [right|left]; reflexivity).
+      fold b. destruct (lbuf_next b (- dir) r1 o1) as [[s2 r2] o2] eqn:En2. xstep. injection Hres as <- <- <- <-.
+      split.
+      * apply (lbuf_next_pos_ok lines (- dir) r1 o1 s2 r2 o2 Hsm (la_nonul _ _ _ _ _ R)); [destruct Hd as [-> | ->]; [right|left]; reflexivity|exact Hp1|exact En2].
+      * unfold m1. rewrite set_pos_set_pos by assumption. eexists; reflexivity.
+    + injection Hres as <- <- <- <-. split; [exact Hp1|]. eexists; reflexivity.
+  - destruct (IH m1 r1 o1 nl2 fuel early s r' o' MM1 Hr1 Ho1 Hp1 ltac:(lia) ltac:(lia) Hres) as (Hp' & nl' & E).
+    split; [exact Hp'|]. exists nl'. unfold we_loop in E; cbn [fn_body cf_lbuf_wordend] in E. rewrite E.
+    unfold m1. rewrite set_pos_set_pos by assumption. reflexivity.
+Qed.
